@@ -305,6 +305,11 @@ class World:
         world = self
 
         def fn(*args, **kwargs):
+            if world.token_mode and nd["beh"]["t"] == "raise":
+                # C16: the frames of a failing call end up in the traceback of the reported error; they must
+                # not be what keeps the arguments alive
+                del args, kwargs
+                return world.on_call(i, nd, (), {})
             return world.on_call(i, nd, args, kwargs)
 
         fn.__module__ = "harness"
@@ -447,7 +452,8 @@ class World:
         except BaseException as e:
             with self.lock:
                 self.inflight -= 1
-            self.raised.setdefault(("call", i), []).append(e)
+            if not self.token_mode:  # C16: the harness must not be what keeps a failed call's frames alive
+                self.raised.setdefault(("call", i), []).append(e)
             self.log("raise", i, type(e).__name__)
             raise
         with self.lock:
